@@ -31,6 +31,16 @@ D = {
  "S-C13-3": ("Renew skips shards in status Timeout instead of refusing", "timeout re-assignment, replacement completes, renew before the next timeout check: the renewal order keeps listing the removed shard"),
  "S-C14-3": ("ShardPledge adds to TotalShardPledged before the amount is raised to the queued renewal collateral", "renew with a longer term, then migration completed by a new provider"),
  "S-C16-3": ("UpdateMetaStatusAndCommit returns early (before recording the update in flight) when the model already outlives the new order", "an update with a shorter term than what is left of the model (or after a renewal), then a second Store on the same base while it is in flight"),
+ "S-C01-3": ("Migrate collects unknown data ids in a Go map and appends the per-id answers by ranging over it", "a MsgMigrate naming >= 2 data ids that do not exist (result data then depends on map iteration order)"),
+ "S-C03-3": ("HandleTimeoutOrder counts re-assignment rounds in a keeper map (process memory) instead of deriving them from the order's age", "an order that keeps timing out without replacement provider, a restart between the first and the eleventh round"),
+ "S-C08-3": ("GetRewardAge recomputed with an integer loop that uses < instead of <= at the halving boundary", "total pledge >= baseline and the cumulative reward landing exactly on a halving boundary (e.g. block reward 5e13)"),
+ "S-C09-3": ("Store applies the proposal's readonly/readwrite lists to an existing model on update (passing meta.Owner to the model keeper)", "a read-write grantee signs a content update whose proposal carries access lists"),
+ "S-C10-3": ("Complete also accepts a signer listed in TxAddresses of the order's gateway", "the gateway's registered hot key sends MsgComplete naming another provider's shard"),
+ "S-C15-3": ("RandomSP drops ignored providers in one forward pass while deleting (skips the element after each removal)", "an ignore list with two providers adjacent in store order"),
+ "S-C17-3": ("Binding checks the proof's age only when it creates a new DID", "an old proof replayed to bind an account to an existing DID (e.g. after MsgUpdate removed it)"),
+ "S-C18-3": ("node ExportGenesis skips pledges whose storage and shard collateral are both zero", "a provider that withdrew all capacity and holds no shard at export time"),
+ "S-C19-3": ("ReportFaults compares the looked-up metadata's data id with itself instead of the order's", "a report whose order/shard/provider are consistent but whose data id names another existing model"),
+ "S-C20-3": ("CheckDelegationShare divides the node's shares by the validator's tokens instead of its delegator shares", "a slashed validator (tokens < shares) and a node just below the threshold"),
  "S-C20-2": ("the staking hook takes the absolute value of the share delta, so a top-up is counted as a reduction", "a node right around the share threshold whose delegation is modified (top-up) after another delegation changed the validator's total"),
 }
 res = collections.defaultdict(list)
